@@ -1041,6 +1041,57 @@ fn store_seqs(out: &mut Out, prop: &str, thorough: bool, seed: u64) {
 
 
 // ================================================================================================
+// C05: cancelling one ls-subscription leaves every other one alone (above, below, beside the cancelled parent)
+
+fn c05_unsubscribe(out: &mut Out) {
+    let rt = rt();
+    let contract = "C05/after an ls-subscription is cancelled every other ls-subscription still receives the current child list of its parent";
+    let parents: [Option<&str>; 5] = [None, Some("a"), Some("a/b"), Some("a/b/c"), Some("x")];
+    let mut cases = 0usize;
+    for cancelled in 0..parents.len() {
+        for order_rev in [false, true] {
+            cases += 1;
+            let w: Option<Value> = rt.block_on(async {
+                let cfg = worterbuch::Config::new(None).await.expect("config");
+                let mut wb = Worterbuch::with_config(cfg);
+                let internal = worterbuch_common::INTERNAL_CLIENT_ID;
+                let mut rxs = vec![];
+                let idx: Vec<usize> = if order_rev { (0..parents.len()).rev().collect() } else { (0..parents.len()).collect() };
+                for i in idx {
+                    let (mut rx, _) = wb.subscribe_ls(ClientId::from_u128(500 + i as u128), 10 + i as u64, parents[i].map(|s| s.to_owned())).await.expect("subscribe_ls");
+                    let _ = rx.try_recv();
+                    rxs.push((i, rx));
+                }
+                if let Err(e) = wb.unsubscribe_ls(ClientId::from_u128(500 + cancelled as u128), 10 + cancelled as u64) {
+                    return Some(json!({"cancelled": format!("{:?}", parents[cancelled]), "problem": "unsubscribe_ls of an existing ls-subscription refused", "got": format!("{e:?}")}));
+                }
+                // one new child below every parent
+                for k in ["n", "a/n", "a/b/n", "a/b/c/n", "x/n"] { wb.set(k.into(), json!(1), internal, true).await.expect("set"); }
+                for (i, rx) in rxs.iter_mut() {
+                    let mut last: Option<Vec<String>> = None;
+                    while let Ok(l) = rx.try_recv() { last = Some(l); }
+                    if *i == cancelled {
+                        if let Some(l) = last { return Some(json!({"cancelled": format!("{:?}", parents[cancelled]), "problem": "the cancelled ls-subscription still receives lists", "got": l})); }
+                        continue;
+                    }
+                    let mut want = wb.ls(&parents[*i].map(|s| s.to_owned())).unwrap_or_default();
+                    want.sort();
+                    let mut got = last.clone().unwrap_or_default();
+                    got.sort();
+                    if last.is_none() || got != want {
+                        return Some(json!({"cancelled": format!("{:?}", parents[cancelled]), "subscription of": format!("{:?}", parents[*i]), "registered in reverse order": order_rev,
+                            "problem": "a surviving ls-subscription did not receive the current child list of its parent", "got": format!("{last:?}"), "expected": want}));
+                    }
+                }
+                None
+            });
+            if let Some(w) = w { out.report(contract, Some("UNLISTED"), w); }
+        }
+    }
+    out.bounded(contract, "ls-subscriptions on root, a, a/b, a/b/c, x registered in both orders; each one cancelled in turn; then one new child below every parent", cases, cases);
+}
+
+// ================================================================================================
 // C07: what the end of a session does - and what it leaves alone (bounded scenarios on the real Worterbuch)
 
 fn c07(out: &mut Out) {
@@ -1375,7 +1426,7 @@ fn main() {
     // "UNLISTED" is never accepted
     out.accepted.remove("UNLISTED");
     match prop {
-        "C01" | "C05" | "C17" | "C02" => { store_seqs(&mut out, prop, thorough, seed); leaves_store(&mut out); if prop == "C02" { c02_clients(&mut out); } if prop == "C17" {
+        "C01" | "C05" | "C17" | "C02" => { store_seqs(&mut out, prop, thorough, seed); leaves_store(&mut out); if prop == "C02" { c02_clients(&mut out); } if prop == "C05" { c05_unsubscribe(&mut out); } if prop == "C17" {
             // only the panics of the lock and $SYS scenarios belong to C17
             let mut tmp = Out::default();
             c06(&mut tmp, false);
